@@ -6,6 +6,7 @@ import (
 
 	"zyverif/core"
 	"zyverif/lang"
+	"zyverif/sut"
 )
 
 // C16 — lazy parameters (DESIGN §4.C16).
@@ -34,7 +35,7 @@ func init() {
 			"reference evaluator models: lazy positions decided by the callee's formals at call time; apply/map bind already evaluated values; a lazy formal that is also the variadic tail is not generated",
 			"substitute is compared through (len (str (substitute #x))) only in programs without string/symbol literals (printing of quoted symbols is not modelled)",
 		},
-		NCases:  func(c *core.Ctx) int { return thorN(c, 4000, 60000) + len(c16Twins) },
+		NCases:  func(c *core.Ctx) int { return thorN(c, 4000, 60000) + len(c16Twins) + len(c16Fixed) },
 		MustSee: []string{"thunks_forced", "lazy_params", "strict_probes_seen", "alias_defs", "recursive_fns", "substitute_uses", "battery_calls", "lazy_strict_twins"},
 		Run:     c16Run,
 	})
@@ -64,6 +65,23 @@ var c16Twins = []string{
 	"(defn c2 [Lx] (let [w 9] F(x))) (defn c1 [Lx] (let [w 5] (c2 (+ w F(x))))) (defn caller [w] (c1 (+ w 1))) (caller 1)",
 	"(func callee [Lx:int64] [r:int64] (let [g 101] F(x))) (def g 8) (defn caller [] (callee (+ g 0))) (caller)",
 	"(def h (hash f: (fn [Lx] (let [g 101] F(x))))) (def g 8) (defn caller [] ((hget h f:) (+ g 0))) (caller)",
+	// typed funcs whose argument for the lazy position is a bare variable name
+	"(func t1 [Lx:int64] [r:int64] F(x)) (def who 41) (t1 who)",
+	"(func t2 [a:int64 Lx:int64] [r:int64] (+ a F(x))) (def who 41) (t2 1 who)",
+	"(func t3 [Lx:int64 b:int64] [r:int64] (+ b F(x))) (def who 41) (defn viaf [w] (t3 w 2)) (viaf who)",
+}
+
+// programs with a fixed expected outcome (value, trace) that have no strict twin
+var c16Fixed = []struct{ prog, want, trace string }{
+	{"(defn sf [#x] (list (force #x) (str (substitute #x)) (force #x))) (def who 7) (sf (+ who (tr 1 1)))", `(8 "(+ who (tr 1 1))" 8)`, "1:1"},
+	{"(defn sf [#x] (list (str (substitute #x)) (force #x) (str (substitute #x)))) (def who 7) (sf (* who 2))", `("(* who 2)" 14 "(* who 2)")`, ""},
+	{"(func skip2 [a:int64 #x:int64] [r:int64] a) (skip2 4 neverDefined9)", "4", ""},
+	{"(def saved nil) (defn keep [#x] (set saved #x) 0) (keep (+ later9 (tr 1 1))) (def later9 5) (list (force saved) (force saved))", "(6 6)", "1:1"},
+	{"(defn twice [#x] (+ (force #x) (force #x))) (twice (tr 1 10))", "20", "1:10"},
+	{"(defn never [#x y] y) (never (tr 1 (/ 1 0)) 3)", "3", ""},
+	// several evaluations on one interpreter (separated by |): a stashed lazy argument whose first forces fail
+	{"(def saved nil) (defn keep [#x] (set saved #x) 0) (keep (+ later9 (tr 1 1))) | (force saved) | (force saved) | (def later9 5) (list (force saved) (force saved))", "0|ERR|ERR|(6 6)", "1:1"},
+	{"(def saved nil) (defn keep [#x] (set saved #x) 0) (keep (aget arr9 (tr 1 2))) | (def arr9 [1]) (force saved) | (def arr9 [1 2 3]) (force saved) | (force saved)", "0|ERR|3|3", "1:2,1:2"},
 }
 
 func c16TwinRun(c *core.Ctx, k int) *core.Result {
@@ -90,6 +108,30 @@ func c16TwinRun(c *core.Ctx, k int) *core.Result {
 }
 
 func c16Run(c *core.Ctx, i int) *core.Result {
+	if base := thorN(c, 4000, 60000) + len(c16Twins); i >= base {
+		f := c16Fixed[i-base]
+		res := &core.Result{Input: f.prog, Hash: core.HashOf(f.prog), Nontrivial: true}
+		s := NewSutRun(true)
+		var gots []string
+		for _, step := range strings.Split(f.prog, " | ") {
+			o := s.Eval(step+"\n", 200000)
+			res.Evals++
+			if o.Panic != "" {
+				res.Violate("escaped-panic:"+o.Site, o.Panic, f.prog)
+				return res
+			}
+			if o.Err != nil {
+				gots = append(gots, "ERR")
+			} else {
+				gots = append(gots, sut.Show(o.Val))
+			}
+		}
+		res.Ev("lazy_strict_twins", 1)
+		if got := strings.Join(gots, "|"); got != f.want || strings.Join(s.Trace, ",") != f.trace {
+			res.Violate("lazy-fixed-expectation", fmt.Sprintf("must give %s with trace [%s]; got %s with trace %v", f.want, f.trace, got, s.Trace), f.prog)
+		}
+		return res
+	}
 	if base := thorN(c, 4000, 60000); i >= base {
 		return c16TwinRun(c, i-base)
 	}
